@@ -52,3 +52,11 @@ Theorem C01_any_covering_grid :
   /\ Qr_star hot cold == Qr_of (pta w hot cold g).
 Proof. intros. repeat split; [apply Qh_star_eq|apply Qc_star_eq|apply Qr_star_eq]; assumption. Qed.
 Print Assumptions C01_any_covering_grid.
+
+(* REFUTED without the Robust hypothesis (finding D44): the faithful model loses the whole duty of a stream that is narrower
+   than the activity window; replayed against the implementation by the check's corpus (reports Qc = 50, Qr = 0 instead of 40, 10). *)
+Theorem C01_window_refuted :
+  Qc_of (stage_model act_window narrow_hot narrow_cold []) == 50 /\ Qc_star narrow_hot narrow_cold == 40
+  /\ gaps_b act_window (grid_of (endpoints (narrow_hot ++ narrow_cold ++ []))) = false.
+Proof. exact window_refuted. Qed.
+Print Assumptions C01_window_refuted.
